@@ -48,6 +48,10 @@ loop(F_POL, "SlidingWindowPolicy._prune", 1, modifies=[("SlidingWindowPolicy", "
         z3.And(num(i) >= 0, num(i) < z3.Length(L.old(L.self)._request_log.term) - z3.Length(L.self._request_log.term)),
         t_at(L.old(L.self)._request_log.term, num(i)) < num(ns(L.cutoff)))), "i")),
     ("still-sorted", lambda L: seq_sorted(L.self._request_log.term)),
+    ("never-grows", lambda L: mk_bool(z3.Length(L.self._request_log.term) <= z3.Length(L.old(L.self)._request_log.term))),
+    ("nothing-dropped-means-unchanged", lambda L: mk_bool(z3.Implies(
+        z3.Length(L.self._request_log.term) == z3.Length(L.old(L.self)._request_log.term),
+        L.self._request_log.term == L.old(L.self)._request_log.term))),
 ])
 
 from specs.common import *  # noqa: E402,F401
@@ -426,7 +430,8 @@ fn(SlidingWindowPolicy, "time_until_available", args={"now": TIME}, requires=[lo
 
 drain_task(SlidingWindowPolicy, lambda p, now: mk_bool(z3.Or(
     z3.Length(p._request_log.term) == 0,
-    t_at(p._request_log.term, z3.Length(p._request_log.term) - 1) <= num(ns(now)))))
+    t_at(p._request_log.term, z3.Length(p._request_log.term) - 1) <= num(ns(now)))),
+    uses=[(SlidingWindowPolicy, "_prune")])
 
 # ============================================================================ A4. fixed window
 # Aligned windows at clock resolution: Wn = window length in whole nanoseconds (the truncation every
